@@ -1,6 +1,6 @@
 (* C10 — a token or PASERK of one version/purpose/kind is never accepted as another.
    The header table is regenerated from /repo's sources (Gen/Headers.v) on every run. *)
-From PV Require Import Bytes Result Base64 Text Headers.
+From PV Require Import Bytes Result Base64 Text Headers Oracle Keys KeysProofs2 Paserk PaserkProofs PaserkTamper PkeProofs.
 From PV.Gen Require Import Headers.
 Local Open Scope string_scope.
 Local Open Scope list_scope.
@@ -38,6 +38,34 @@ Theorem C10_kind_families_use_distinct_headers :
   && forallb (fun a => negb (beq a gen_seal_header)) pws = true.
 Proof. exact kind_headers_distinct_families. Qed.
 
+(* ---- key bytes: whatever a decoder accepts has exactly the length of the requested kind, so the bytes of a key
+        of another kind or version with a different length never pass (v1: DER, variable length, excluded) ---- *)
+Theorem C10_key_lengths_exact : forall O b k bs obj,
+  b <> B1 \/ k = KLocal -> key_decode O b k bs = Ok obj -> length bs = klen b k.
+Proof. exact key_exact_length. Qed.
+
+(* ---- re-labelled blobs: version and header are part of what the tag authenticates.  A PIE / PBKW / seal blob
+        presented under another version or header gives the MAC a different input (hence fails to unwrap unless the
+        MAC collides: C06's acceptance theorems) ---- *)
+Theorem C10_pie_relabel_changes_mac_input : forall (P P' : pie_params) (h h' n n' c c' : bytes),
+  length (pie_ver P) = 2 -> length (pie_ver P') = 2 -> In h pie_headers -> In h' pie_headers ->
+  length n = 32 -> length n' = 32 ->
+  (pie_ver P, h, n, c) <> (pie_ver P', h', n', c') ->
+  pie_ver P ++ h ++ n ++ c <> pie_ver P' ++ h' ++ n' ++ c'.
+Proof. exact pie_auth_inputs_differ. Qed.
+Theorem C10_pbkw_relabel_changes_mac_input : forall (v v' h h' p p' c c' : bytes),
+  length v = 2 -> length v' = 2 -> In h pw_headers -> In h' pw_headers -> length p = length p' ->
+  v ++ h ++ p ++ c = v' ++ h' ++ p' ++ c' -> (v, h, p, c) = (v', h', p', c').
+Proof. exact pw_input_injective. Qed.
+Theorem C10_seal_relabel_changes_mac_input : forall (v v' h epk epk' edk edk' : bytes),
+  length v = 2 -> length v' = 2 -> length epk = length epk' ->
+  v ++ h ++ epk ++ edk = v' ++ h ++ epk' ++ edk' -> (v, epk, edk) = (v', epk', edk').
+Proof. exact pke_mac_input_injective. Qed.
+
+Print Assumptions C10_key_lengths_exact.
+Print Assumptions C10_pie_relabel_changes_mac_input.
+Print Assumptions C10_pbkw_relabel_changes_mac_input.
+Print Assumptions C10_seal_relabel_changes_mac_input.
 Print Assumptions C10_constants_are_the_specs.
 Print Assumptions C10_prefix_table_well_formed.
 Print Assumptions C10_cross_kind_rejected.
